@@ -7,6 +7,7 @@ import (
 	"encoding/json"
 	"fmt"
 	"math/big"
+	"os"
 	"sort"
 	"strconv"
 	"strings"
@@ -555,6 +556,9 @@ func (w *World) checkGov(h int64, f *blockFacts) {
 	gotP := map[string]string{}
 	for _, e := range list {
 		id, desc := describeImplProp(e)
+		if os.Getenv("VERIF_DEBUG") == "gov" {
+			w.logf("D prop h=%d %s %s", h, short(id), desc)
+		}
 		gotP[id] = desc
 	}
 	wantP := map[string]string{}
